@@ -1352,6 +1352,8 @@ def gen_registry(seed, mode="loop"):
         body += one(m)
         if r.random() < 0.15:
             body.append(("srclen", m))
+        elif r.random() < 0.1:
+            body.append(("srclen", m, r.randrange(0, 8)))       # count of one kind only (0 = subscriptions ... 7 = thresholds)
     # tasks only on modules that are not running at that point cannot be known statically: drop task_reg followed by a
     # state change of the same module (known finding: task outlives its source)
     cleaned = []
